@@ -12,6 +12,14 @@ const SOUP: [&str; 29] = [
     "a", "b", "a-", "a--", "1", "0", "-1", "m", "!", "?", "{", "}", "const", "/", "|", "^", "-", "+", "(", ")", "?? doc",
     "!category", "!endcategory", "!symbol", "\\", "\"", "\n", "3.", ".",
 ];
+/// Token soup about *names*: base units with long names, plurals, prefixed spellings, aliases.
+/// Every name that can come out of it is queried and canonicalized after the load.
+const NAMESOUP: [&str; 15] = ["a", "b", "as", "bs", "ka", "kb", "k-", "!", "!a", "!b", "\n", "2", "0", "a-", "?"];
+const NAME_PROBES: [&str; 12] = ["a", "b", "as", "bs", "ka", "kb", "kas", "kbs", "aa", "ab", "k", "kk"];
+/// Alias graphs: after `b !`, `c !`, `k- 1000`, up to three definitions `X Y` whose right-hand sides
+/// are reached through the plural and prefix rules.
+const ALIAS_NAMES: [&str; 5] = ["kb", "kc", "bb", "cs", "kbs"];
+const ALIAS_TARGETS: [&str; 12] = ["kb", "kbs", "kc", "kcs", "b", "bs", "c", "cs", "bb", "bbs", "kkb", "kcss"];
 const DATESOUP: [&str; 12] = ["[", "]", "'", "-", ":", " ", "year", "day", "sec", "offset", "T", "#"];
 
 #[derive(Clone)]
@@ -33,10 +41,12 @@ pub struct C13 {
     /// names referenced exactly by some other definition and their definers
     needed: BTreeMap<u32, String>,
     tier: String,
+    /// number of name-soup families
+    name_lens: usize,
 }
 
 const DEVKINDS: [&str; 6] = ["delete line", "duplicate line", "swap with next line", "delete token", "replace number by 0", "replace number by -1"];
-const SUBSTANCE_FILES: [&str; 26] = [
+const SUBSTANCE_FILES: [&str; 31] = [
     // base units and their long names: self-naming, mutual, shadowed by units, used before and after
     "a !a\nb a\n",
     "a !a\n0b a\nzz 3 a\n",
@@ -64,6 +74,13 @@ const SUBSTANCE_FILES: [&str; 26] = [
     "m !meter\nfoo {\n  ?? doc\n  p const q 1|0 m\n}\n!symbol foo Fo\n",
     "m !meter\n!symbol nothing No\n!symbol\n!category\n!category x\n!endcategory\n!endcategory\n!bogus thing\n",
     "m !meter\nfoo {\n  p const q 0\n}\nbar p of foo\n",
+    // prefixes worth zero (or less): every later reply divides by the prefix it picks
+    "m !meter\nkilo- 0\nmilli- 0\nmega- 0.0\nmicro- -1\n",
+    "m !meter\nkilo- 0^.5\nmilli- 1e-400\n",
+    // quantity powers at the edge of the exponent type
+    "q !\nx ? q^2305843009213693952\ny ? x x\nz ? x / x^-1\nw ? x x x x\n",
+    "q !\nx ? q^-2305843009213693952\ny ? x x x x\nz ? 1 / x\nw ? x^-4\n",
+    "q !\nx ? q^4611686018427387904\ny ? x x\n",
 ];
 
 /// Property values that are zero in some representation (an exact zero, a float zero from a
@@ -240,6 +257,13 @@ impl C13 {
                     }
                 }
             }
+            let symbols: BTreeSet<String> = defs
+                .iter()
+                .filter_map(|d| match &*d.def {
+                    rink_core::ast::Def::Substance { symbol: Some(s), .. } => Some(s.clone()),
+                    _ => None,
+                })
+                .collect();
             let prefixes: Vec<String> = defs
                 .iter()
                 .filter(|d| matches!(&*d.def, rink_core::ast::Def::Prefix { .. }))
@@ -262,13 +286,15 @@ impl C13 {
                 let others = |n: &str| all_names.contains(n) && n != name;
                 let alt = prefixes.iter().any(|p| name.strip_prefix(p.as_str()).map(|r| others(r)).unwrap_or(false))
                     || name.strip_suffix('s').map(|st| others(st) || prefixes.iter().any(|p| st.strip_prefix(p.as_str()).map(|r| others(r)).unwrap_or(false))).unwrap_or(false);
+                // ... nor as a chemical formula over the declared element symbols (`U`, `Hg`, `CO2`)
+                let alt = alt || reads_as_formula(name, &symbols);
                 if !alt {
                     needed.insert(li as u32, name.to_string());
                 }
             }
         }
         let soup_len: Vec<u64> = if thorough { vec![1, 2, 3, 4, 5] } else { vec![1, 2, 3, 4] };
-        let cyc_lens: Vec<u64> = if thorough { vec![1, 2, 3, 4, 5, 6, 7, 8, 9, 10, 11, 12, 100, 1000, 5000] } else { vec![1, 2, 3, 4, 5, 6, 7, 8, 9, 10, 11, 12, 100, 1000, 2000] };
+        let cyc_lens: Vec<u64> = if thorough { vec![1, 2, 3, 4, 5, 6, 7, 8, 9, 10, 11, 12, 100, 1000, 5000, 10000] } else { vec![1, 2, 3, 4, 5, 6, 7, 8, 9, 10, 11, 12, 100, 1000, 2000, 5000] };
         let root: Value = serde_json::from_str(CURRENCY_JSON).unwrap();
         let mut paths = vec![];
         json_paths(&root, &mut vec![], &mut paths);
@@ -292,7 +318,13 @@ impl C13 {
         fams.add("date pattern soup", vec![(DATESOUP.len() as u64).pow(if thorough { 5 } else { 4 })]);
         fams.add("substance property values: zero in every representation x position", vec![PROP_VALUES.len() as u64, 3]);
         fams.add("exponent boundary values in definitions", vec![EXP_BASES.len() as u64, EXP_EXPS.len() as u64, 6]);
-        C13 { fams, files, devs, soup_len, cyc_lens, json_paths: paths, json_cuts, needed, tier: tier.to_string() }
+        for l in 1..=(if thorough { 5u32 } else { 4 }) {
+            fams.add(&format!("name soup of length {}", l), vec![(NAMESOUP.len() as u64).pow(l)]);
+        }
+        let at = (ALIAS_NAMES.len() * ALIAS_TARGETS.len()) as u64;
+        fams.add("alias graphs through plurals and prefixes: 1 to 3 definitions", vec![at + at * at + if thorough { at * at * at } else { 0 }]);
+        fams.add("very long runs of blanks and line continuations", vec![4]);
+        C13 { fams, files, devs, soup_len, cyc_lens, json_paths: paths, json_cuts, needed, tier: tier.to_string(), name_lens: if thorough { 5 } else { 4 } }
     }
 
     fn deviated(&self, d: &Dev) -> String {
@@ -370,6 +402,30 @@ fn canaries(ctx: &mut Context, extra: &[&str]) -> Vec<(String, String)> {
         }
     }
     bad
+}
+
+/// Does `name` read as a chemical formula whose element symbols are all declared?  (The loader and
+/// the evaluator then resolve it to a substance, so the name is not dangling.)
+fn reads_as_formula(name: &str, symbols: &BTreeSet<String>) -> bool {
+    let mut chars = name.chars().peekable();
+    let mut any = false;
+    while let Some(c) = chars.next() {
+        match c {
+            'A'..='Z' => {
+                let mut sym = c.to_string();
+                if let Some('a'..='z') = chars.peek().cloned() {
+                    sym.push(chars.next().unwrap());
+                }
+                if !symbols.contains(&sym) {
+                    return false;
+                }
+                any = true;
+            }
+            '0'..='9' => (),
+            _ => return false,
+        }
+    }
+    any
 }
 
 fn cycle_text(n: u64, nsidx: u64) -> (String, Vec<String>) {
@@ -465,7 +521,7 @@ impl Space for C13 {
         Meta {
             id: "C13",
             level: "exploration",
-            rule: "deviation-bounded: 0 deviations (shipped files) then every single deviation {delete line, duplicate line, swap with next, delete each token, replace each number by 0 / -1} of definitions.units (quick: every 40th line), currency.units and datepatterns.txt; every definitions file of <= 4 (thorough 5) tokens over a 29-token alphabet (incl. the numeral spellings `3.` and `.`), loaded into an empty context and into one holding `m !meter`; dependency cycles of length 1..12, 100, 1000, 2000 (thorough 5000) through 11 namespace shapes (units, prefixes, quantities, substance property, prefix/plural readings, reverse order, bare aliases, bare aliases that also read as prefix + base unit, prefix<->unit cycles closed by a prefix used as a prefix in both visiting orders, prefixes defined by names carrying the next prefix); forward/backward alias chains of 1000/3000 (thorough also 10000); 26 malformed substance/directive and base-unit long-name files (self-naming `a !a`, mutual `a !b; b !a`, long names shadowed by units, prefixes and quantities); substance property values that are zero in 10 representations (exact, float zero from `0^.5`, float underflow `1e-300^1.5`, ...) x 3 positions, which must be reported, plus non-zero controls (`1e-400`), which must load; exponent boundary values (+-2^31, +-2^32, +-2^63, 1e30) on bases 0/1/-1 in prefix, unit, unit-power, substance and quantity definitions; currency JSON truncated at every (quick: every 9th) byte, every field deleted or type-replaced (8 edits); date-pattern soups. Oracle: the load returns without panic/abort/stack overflow within the limit; a problem is reported when a deleted single-line definition was needed by another and has no other reading, and for every cycle; afterwards `1 + 1` answers 2 and queries for loaded/missing names do not panic. Non-trivial = all; distinct by the text loaded".into(),
+            rule: "deviation-bounded: 0 deviations (shipped files) then every single deviation {delete line, duplicate line, swap with next, delete each token, replace each number by 0 / -1} of definitions.units (quick: every 40th line), currency.units and datepatterns.txt; every definitions file of <= 4 (thorough 5) tokens over a 29-token alphabet (incl. the numeral spellings `3.` and `.`), loaded into an empty context and into one holding `m !meter`; dependency cycles of length 1..12, 100, 1000, 2000, 5000 (thorough 10000) through 11 namespace shapes (units, prefixes, quantities, substance property, prefix/plural readings, reverse order, bare aliases, bare aliases that also read as prefix + base unit, prefix<->unit cycles closed by a prefix used as a prefix in both visiting orders, prefixes defined by names carrying the next prefix); forward/backward alias chains of 1000/3000 (thorough also 10000); 31 malformed substance/directive, base-unit long-name, zero-prefix and quantity-power-boundary files (self-naming `a !a`, mutual `a !b; b !a`, long names shadowed by units, prefixes and quantities); substance property values that are zero in 10 representations (exact, float zero from `0^.5`, float underflow `1e-300^1.5`, ...) x 3 positions, which must be reported, plus non-zero controls (`1e-400`), which must load; exponent boundary values (+-2^31, +-2^32, +-2^63, 1e30) on bases 0/1/-1 in prefix, unit, unit-power, substance and quantity definitions; name soups: every file of <= 4 (thorough 5) tokens over a 15-token alphabet of names, plurals, prefixed spellings and `!long` names, after which all 12 names are queried in 3 forms and canonicalized/looked up through the API; alias graphs: 1..2 (thorough 3) definitions `X Y` over 5 names x 12 targets reached through plural and prefix rules; four files with runs of 150000..1000000 blanks/tabs/continuations; currency JSON truncated at every (quick: every 9th) byte, every field deleted or type-replaced (8 edits); date-pattern soups. Oracle: the load returns without panic/abort/stack overflow within the limit; a problem is reported when a deleted single-line definition was needed by another and has no other reading, and for every cycle; afterwards `1 + 1` answers 2 and queries for loaded/missing names do not panic. Non-trivial = all; distinct by the text loaded".into(),
             assumptions: vec![
                 "expression nesting depth beyond a few hundred is outside the statement's quantifier (chat-size / realistic files)".into(),
                 "the reporting clause is judged only where the harness can prove the deleted definition has no other reading".into(),
@@ -500,6 +556,12 @@ impl Space for C13 {
             format!("substance property value file: {:?}", prop_value_file(d[0] as usize, d[1]))
         } else if f == ns + 8 {
             format!("exponent file: {:?}", exp_file(d[0], d[1], d[2]))
+        } else if f >= ns + 9 && f < ns + 9 + self.name_lens {
+            format!("name soup: {:?}", name_soup_text(d[0], (f - ns - 8) as u64))
+        } else if f == ns + 9 + self.name_lens {
+            format!("alias graph: {:?}", alias_graph_text(d[0]))
+        } else if f == ns + 10 + self.name_lens {
+            format!("long run #{}: {}", d[0], long_run_text(d[0]).1)
         } else {
             format!("date patterns: {:?}", date_soup(d[0], if self.tier == "thorough" { 5 } else { 4 }))
         }
@@ -668,8 +730,51 @@ impl Space for C13 {
             ctx.use_humanize = false;
             let (res, printed) = capture_stdout(|| ctx.load_definitions(text));
             let mut out = CaseOut::ok(if res.is_err() || !printed.trim().is_empty() { "substance file: reported" } else { "substance file: silent" }).key(hash64(text));
-            for (s, dt) in canaries(&mut ctx, &["foo", "density of foo", "a of foo", "b of foo", "mass of foo", "p of foo", "q of foo", "3 m foo", "foo -> m", "bar", "2 foo", "foo_mass of foo"]) {
+            for (s, dt) in canaries(&mut ctx, &["foo", "density of foo", "a of foo", "b of foo", "mass of foo", "p of foo", "q of foo", "3 m foo", "foo -> m", "bar", "2 foo", "foo_mass of foo", "1/m", "1/m^2", "5000 m", "0.002 m", "3 kilom", "1 q", "x", "y", "1/q"]) {
                 out = out.viol(s, format!("{}: {}", self.describe(idx), dt));
+            }
+            return out;
+        }
+        if f >= ns + 9 && f <= ns + 10 + self.name_lens {
+            let (text, probes): (String, Vec<String>) = if f < ns + 9 + self.name_lens {
+                (name_soup_text(d[0], (f - ns - 8) as u64), NAME_PROBES.iter().map(|s| s.to_string()).collect())
+            } else if f == ns + 9 + self.name_lens {
+                let mut pr: Vec<String> = ALIAS_NAMES.iter().chain(ALIAS_TARGETS.iter()).map(|s| s.to_string()).collect();
+                pr.sort();
+                pr.dedup();
+                (alias_graph_text(d[0]), pr)
+            } else {
+                (long_run_text(d[0]).0, vec!["a".to_string(), "b".to_string(), "c".to_string()])
+            };
+            let mut ctx = Context::new();
+            ctx.use_humanize = false;
+            let (res, printed) = capture_stdout(|| ctx.load_definitions(&text));
+            let reported = res.is_err() || !printed.trim().is_empty();
+            let fam = if f < ns + 9 + self.name_lens { "name soup" } else if f == ns + 9 + self.name_lens { "alias graph" } else { "long run" };
+            let mut out = CaseOut::ok(&format!("{}: {}", fam, if reported { "reported" } else { "accepted" })).key(hash64(&text));
+            // every name, alone and in the other query forms, and through the lookup API
+            let mut qs: Vec<String> = vec![];
+            for n in &probes {
+                qs.push(n.clone());
+                qs.push(format!("3 {}", n));
+                qs.push(format!("units for {}", n));
+            }
+            qs.push(format!("3 {} -> {}", probes[0], probes[1]));
+            qs.push(format!("{} + {}", probes[0], probes[1]));
+            let refs: Vec<&str> = qs.iter().map(|s| s.as_str()).collect();
+            for (s2, dt) in canaries(&mut ctx, &refs) {
+                out = out.viol(s2, format!("{}: {}", self.describe(idx), dt));
+            }
+            for n in &probes {
+                let c1 = ctx.canonicalize(n);
+                let l1 = ctx.lookup(n);
+                // and they are functions of the name
+                if c1 != ctx.canonicalize(n) || l1 != ctx.lookup(n) {
+                    out = out.viol("lookup of a name answers differently the second time", format!("{}: {}", self.describe(idx), n));
+                }
+            }
+            if f == ns + 10 + self.name_lens && reported {
+                out = out.viol("a file that only has long runs of blanks is reported as faulty", format!("{}: {:?} {}", self.describe(idx), res.err().map(|e| engine::util::clip(&e, 200)), engine::util::clip(&printed, 200)));
             }
             return out;
         }
@@ -740,6 +845,55 @@ impl Space for C13 {
             out = out.viol(s, format!("{}: {}", self.describe(idx), dt));
         }
         out
+    }
+}
+
+fn name_soup_text(mut k: u64, len: u64) -> String {
+    let mut parts = vec![];
+    for _ in 0..len {
+        parts.push(NAMESOUP[(k % NAMESOUP.len() as u64) as usize]);
+        k /= NAMESOUP.len() as u64;
+    }
+    parts.reverse();
+    let mut s = String::from("k- 1000\n");
+    for p in parts {
+        if !s.ends_with('\n') {
+            s.push(' ');
+        }
+        s.push_str(p);
+    }
+    s.push('\n');
+    s
+}
+
+fn alias_graph_text(mut k: u64) -> String {
+    let at = (ALIAS_NAMES.len() * ALIAS_TARGETS.len()) as u64;
+    let n = if k < at {
+        1
+    } else if k < at + at * at {
+        k -= at;
+        2
+    } else {
+        k -= at + at * at;
+        3
+    };
+    let mut s = String::from("b !\nc !\nk- 1000\n");
+    for _ in 0..n {
+        let pair = k % at;
+        k /= at;
+        s.push_str(&format!("{} {}\n", ALIAS_NAMES[(pair / ALIAS_TARGETS.len() as u64) as usize], ALIAS_TARGETS[(pair % ALIAS_TARGETS.len() as u64) as usize]));
+    }
+    s
+}
+
+/// Files in which the only unusual thing is the length of a run of blanks, tabs or continuation
+/// lines (the tokenizer must not use stack for each one).
+fn long_run_text(k: u64) -> (String, String) {
+    match k {
+        0 => (format!("a !\nb{}2 a\nc 3 a\n", " ".repeat(1_000_000)), "a million spaces between name and definition".into()),
+        1 => (format!("a !\nb 2{}a\nc 3 a\n", "\t".repeat(1_000_000)), "a million tabs inside a definition".into()),
+        2 => (format!("a !\nb 2 a\nc 3{}a\n", "\\\n".repeat(200_000)), "200000 continuation lines inside a definition".into()),
+        _ => (format!("a !\nb 2 a\nc 3{}a\n", " \\\r\n\t".repeat(150_000)), "150000 blank + CRLF continuation + tab groups".into()),
     }
 }
 
